@@ -242,18 +242,24 @@ def convert_cone(key, val):
         return SurfaceCollection([(cone, 1)])
 
     pos = -(u_x * p_x + u_y * p_y + u_z * p_z)
+    side = -int(nappe)
+    # the normal of PLANEX/Y/Z points along the positive axis; flip the side
+    # if the cone axis points the other way
     if u_x == 0 and u_y == 0:
         type_surface = T4S.PLANEZ
         param = [-pos / u_z]
+        side = side if u_z > 0 else -side
     elif u_y == 0 and u_z == 0:
         type_surface = T4S.PLANEX
         param = [-pos / u_x]
+        side = side if u_x > 0 else -side
     elif u_z == 0 and u_x == 0:
         type_surface = T4S.PLANEY
         param = [-pos / u_y]
+        side = side if u_y > 0 else -side
     else:
         type_surface = T4S.PLANE
         param = [u_x, u_y, u_z, pos]
     plane = SurfaceT4(type_surface, param,
                       [f'aux plane for cone {key}'])
-    return SurfaceCollection([(cone, 1), (plane, -int(nappe))])
+    return SurfaceCollection([(cone, 1), (plane, side)])
